@@ -14,6 +14,12 @@ Two layers, mirroring the real stack:
     rolls back).  The REAL `gear.transaction` decorator works on it unchanged (it only needs `db.start(read_only=...)`).
 
 `Unsupported` (SQL outside the minisql subset) is never converted: it propagates so that the run fails closed.
+
+Overlapping requests (history op "race", see race.py): while `FakeDatabase.race` is set, a connection opened by one of the two
+racing handler tasks carries its `party`; every statement of such a connection passes `race.before` (pause point of the first
+request, table-granular lock check against the other party -- possibly suspending this task until the other one finished --,
+snapshot for consistent reads) and `race.after`; the end of a transaction releases the party's locks (`race.end_tx`).
+Connections without a party (every ordinary op) never touch that code.
 """
 import re
 
@@ -80,8 +86,18 @@ class FakeCursor:
             raise to_pymysql_error(e) from None
         return r
 
+    async def _gated(self, sql, args):
+        race = self._conn._db.race
+        if race is None or self._conn.party is None:
+            return self._run(sql, args)
+        token = await race.before(self._conn, sql, args)
+        try:
+            return self._run(sql, args)
+        finally:
+            race.after(self._conn, token)
+
     async def execute(self, sql, args=None):
-        r = self._run(sql, args)
+        r = await self._gated(sql, args)
         self._rows = r.rows
         self._pos = 0
         self.rowcount = r.rowcount
@@ -105,7 +121,7 @@ class FakeCursor:
                 if isinstance(a, dict):
                     raise NotImplementedError('named parameters')
                 flat.extend(a)
-            r = self._run(bulk, flat)
+            r = await self._gated(bulk, flat)
             self.rowcount = r.rowcount
             self.lastrowid = r.lastrowid
             self._rows = None
@@ -143,18 +159,29 @@ class FakeConnection:
     def __init__(self, db):
         self._db = db
         self._sess = db.engine.connect()
+        self.party = None
+        if db.race is not None:
+            from batchdb.race import PARTY
+            self.party = PARTY.get()
 
     def cursor(self):
         return FakeCursor(self)
 
+    def _end_tx(self):
+        if self.party is not None and self._db.race is not None:
+            self._db.race.end_tx(self)
+
     async def commit(self):
         self._sess.commit()
+        self._end_tx()
 
     async def rollback(self):
         self._sess.rollback()
+        self._end_tx()
 
     def close(self):
         self._sess.close()
+        self._end_tx()
 
 
 class FakeTransaction:
@@ -270,6 +297,7 @@ class FakeDatabase:
         self.n_transactions = 0
         self.trace = None
         self.pool = self
+        self.race = None          # race.RaceControl while a "race" op runs
 
     async def async_init(self, config_file=None, maxsize=10):
         return None
